@@ -1,7 +1,9 @@
 """C02 Derived edges are exactly the boundary segments of the faces"""
 PROPERTY = "C02"
 LEVEL = "proof"
-FUNCTIONS = []
+FUNCTIONS = [{'q': 'uxarray.grid.connectivity.close_face_nodes',
+    'standin': {}}, 'uxarray.grid.connectivity._build_n_nodes_per_face',
+    'uxarray.grid.connectivity._build_face_edge_connectivity']
 STANDINS = ["edges"]
 ASSUMPTIONS = []
 EXPLANATION = "builders under contract + bounded stand-in (catalogue meshes, exhaustive small tables, access orders)"
